@@ -127,13 +127,46 @@ Definition kn_impl_gen (fs fe : bool) (c : corpus) (n : nat) (o : options) : res
   finish_with n o tab stats.
 Definition kn_impl := kn_impl_gen true true.
 
-(* ---- the gamma records AddRight sends to Interpolate for order k1 = k+1: one per context of the (unpruned) k1-grams, in
-   the order of the context-sorted stream, i.e. the suffix order of the contexts.  (AddRight's grouping of the sorted
-   stream is represented by its result here.) *)
+(* ---- what AddRight must send to Interpolate for order k1 = k+1 (specification of `gamma_records` below): one record per
+   context of the (unpruned) k1-grams, in the suffix order of the contexts. *)
 Definition contexts (tab : list (list entry)) (k1 : nat) : list gram :=
   sort_uniq (map (fun e => tl (e_gram e)) (ents tab k1)).
 Definition gamma_stream (tab : list (list entry)) (ds : list disc) (k1 : nat) : list (gram * Q) :=
   map (fun c => (c, gamma tab ds k1 c)) (contexts tab k1).
+
+(* ---- AddRight (lm/builder/initial_probabilities.cc) as a stream transformer: it reads the order-k n-grams in CONTEXT
+   order, accumulates -- while the context stays the same -- the denominator, the numbers of kept extensions with
+   cutoff count 1, 2, 3+ and the pruned mass, and sends one (context, gamma) record per run.  The sort into context order
+   between AdjustCounts and InitialProbabilities is represented by its result (`ctx_sort`, a stable insertion sort on
+   the context; the order inside a run does not matter to the sums). *)
+Record acc := mkAcc { ac_den : N; ac_c1 : N; ac_c2 : N; ac_c3 : N; ac_norm : N }.
+Definition acc0 : acc := mkAcc 0 0 0 0 0.
+Definition b2n (b : bool) : N := if b then 1%N else 0%N.
+Definition acc_add (a : acc) (e : entry) : acc :=
+  let cnt := e_adj e in
+  let cut := if e_marked e then 0%N else cnt in      (* CutoffCount() *)
+  mkAcc (ac_den a + cnt) (ac_c1 a + b2n (cut =? 1)%N) (ac_c2 a + b2n (cut =? 2)%N) (ac_c3 a + b2n (3 <=? cut)%N) (ac_norm a + (cnt - cut)).
+Definition acc_gamma (d : disc) (a : acc) : Q :=
+  let '(d1, d2, d3) := d in
+  (d1 * QN (ac_c1 a) + d2 * QN (ac_c2 a) + d3 * QN (ac_c3 a) + QN (ac_norm a)) / QN (ac_den a).
+Definition ctx (e : entry) : gram := tl (e_gram e).
+Fixpoint add_right_run (d : disc) (c : gram) (a : acc) (l : list entry) : list (gram * Q) :=
+  match l with
+  | [] => [(c, acc_gamma d a)]
+  | e :: t => if geqb (ctx e) c then add_right_run d c (acc_add a e) t
+              else (c, acc_gamma d a) :: add_right_run d (ctx e) (acc_add acc0 e) t
+  end.
+Definition add_right (d : disc) (l : list entry) : list (gram * Q) :=
+  match l with [] => [] | e :: t => add_right_run d (ctx e) (acc_add acc0 e) t end.
+Fixpoint cins (e : entry) (l : list entry) : list entry :=
+  match l with
+  | [] => [e]
+  | h :: t => match cmp (ctx e) (ctx h) with Gt => h :: cins e t | _ => e :: l end
+  end.
+Definition ctx_sort (l : list entry) : list entry := fold_right cins [] l.
+(* the gamma records that reach Interpolate for order k1 *)
+Definition gamma_records (tab : list (list entry)) (ds : list disc) (k1 : nat) : list (gram * Q) :=
+  add_right (dk ds k1) (ctx_sort (ents tab k1)).
 
 (* Callback::Enter, the back-off of the n-gram just entered.  "Not a context": the n-gram ends in <unk> or </s>, or the
    stream is exhausted.  Without pruning at the next order the NEXT record is taken (position only); with pruning
@@ -170,7 +203,7 @@ Definition hash_mode (o : options) (k1 : nat) : bool :=
 (* the back-off weights of the kept order-k n-grams, in stream order *)
 Definition backoffs_impl (n : nat) (o : options) (tab : list (list entry)) (ds : list disc) (k : nat) : list Q :=
   let gs := map e_gram (filter kept (ents tab k)) in
-  if (k <? n)%nat then (if hash_mode o (S k) then join_hash else join_seq) gs (gamma_stream tab ds (S k))
+  if (k <? n)%nat then (if hash_mode o (S k) then join_hash else join_seq) gs (gamma_records tab ds (S k))
   else map (fun _ => 1) gs.
 
 (* ---- Interpolate (lm/builder/interpolate.cc), bottom up as the code computes it: MergeRight has stored with every kept
